@@ -75,14 +75,16 @@ Fixpoint assoc {A} (k : string) (l : list (string * A)) : option A :=
 (* ---------- the instance: callbacks as scripts ---------- *)
 Inductive act := ASelf (e : etype) (t : tag) | AFail.
 Inductive dur := DNone | DZero | DInf | DPos.
+(* an exit action: just runs, raises, or sends an event to its own FSM (always refused) *)
+Inductive xact := XLog | XFail | XSelf.
 
 Record inst := {
   i_cond_inst : list (string * bool);      (* cond_EVENT=function given to the constructor *)
   i_cond_meth : list (string * bool);      (* cond_EVENT method of the class *)
   i_enter_inst : list (string * list act);
   i_enter_meth : list (string * list act);
-  i_exit_inst : list (string * bool);      (* exit action present; true = it raises *)
-  i_exit_meth : list (string * bool);
+  i_exit_inst : list (string * xact);
+  i_exit_meth : list (string * xact);
   i_on_enter : list string;                (* states with an on_enter_STATE event *)
   i_on_exit : list string;
   i_on_notrans : bool;
@@ -190,11 +192,13 @@ Definition run_enter (d : fsmdef) (i : inst) (s : fstate) (x : string) (vis : ta
 Definition run_exit (i : inst) (s : fstate) (x : string) (vis : tag) : fstate * option errkind :=
   let s1 := match assoc x (i_exit_inst i) with Some _ => st_log s [LExit x true vis] | None => s end in
   match assoc x (i_exit_inst i) with
-  | Some true => (s1, Some EHandler)
+  | Some XFail => (s1, Some EHandler)
+  | Some XSelf => (s1, Some ERecursion)      (* "Forbidden recursive event() call" *)
   | _ =>
       let s2 := match assoc x (i_exit_meth i) with Some _ => st_log s1 [LExit x false vis] | None => s1 end in
       match assoc x (i_exit_meth i) with
-      | Some true => (s2, Some EHandler)
+      | Some XFail => (s2, Some EHandler)
+      | Some XSelf => (s2, Some ERecursion)
       | _ => (s2, None)
       end
   end.
